@@ -868,7 +868,14 @@ def run(ck):
                    "checks/c02.py `oracle`: an independent copy of the four systems in Python doubles (math.sin/cos/fmod = the same glibc)",
                    "model abstractions: functional states instead of buffers (aliasing modelled separately as pwvAlias), step counts "
                    "instead of double durations inside the model (converted at the protocol boundary), tree indices instead of pointers"]
-    ck.assumptions += ["the user's propagator, validity checker, distance and goal are deterministic pure functions (parameters of every theorem)",
+    ck.trusted += ["PDST abstraction: findDurationAndAncestor re-identifies tree states by `distance < float epsilon`; the model treats this "
+                   "lookup as exact identification (hypotheses hclose / hrefl of pdst_solution_replays) — observed, not proved, on every "
+                   "explored run by the PDST lock-step and the replay oracle"]
+    ck.assumptions += ["pdst_solution_replays / pdst_exact_path_in_goal / pdst_path_checks hold under four explicit hypotheses: (1) hclose: "
+                       "close a b -> a = b and (2) hrefl: close a a [the code's float-epsilon state lookup modelled as exact identification]; "
+                       "(3) hmin: minControlDuration >= 1 [enforced by control::SpaceInformation::setup]; (4) hrng: uniformInt(1,hi) in [1,hi] "
+                       "for hi >= 1 [contract of RNG::uniformInt, true of the RNG model]",
+                       "the user's propagator, validity checker, distance and goal are deterministic pure functions (parameters of every theorem)",
                        "planners other than control::RRT, SST, EST, KPIECE1 and PDST (i.e. SyclopRRT, SyclopEST) are covered only on the explored runs (trace conformance, no model)",
                        "every duration must be a whole number k >= 0 of steps; k in [minSteps,maxSteps] is proved for control::RRT "
                        "(k = 1 with intermediate states), control::EST and control::SST (exactly the drawn count); control::KPIECE1 is proved to report "
@@ -1123,6 +1130,66 @@ def run(ck):
                     pair_lines.append(" ".join(["pinterp"] + pb.sy.toks() + pb.env_toks() + [str(n)] + Sb + Cb + Db))
                     pair_lines.append(" ".join(["pgeom"] + pb.sy.toks() + pb.env_toks() + [str(n)] + Sb + Cb + Db))
                     ck.count("path-mutation:" + what)
+    # ---------------- histories on ONE planner object: repeated solve() (continue) and clear()+solve(); every solution path the
+    # problem definition holds after each solve goes through the replay oracle (C03 drives control planners through such
+    # histories too, but judges interruption/resume/leaks, not the replay)
+    rh = ck.rng.fork("hist")
+    hjobs = []
+    for planner in PLANNERS:
+        for kind in ("point", "uni", "dint", "car", "ode"):
+            for rep in range(2 if quick else 8):
+                pb = std_problem(kind, rh.below(8), rh.choice(["empty", "wall", "two"]), "pos") if rep % 2 == 0 else random_problem(rh, kind)
+                if planner.startswith("Syclop"):
+                    pb.goal_kind = "pos"
+                a, b, c = rh.choice([20, 150, 600]), rh.choice([100, 800, 2500]), rh.choice([50, 400])
+                ops = rh.choice([["solve", str(a), "solve", str(b)], ["solve", str(a), "clear", "solve", str(b)],
+                                 ["solve", "0", "solve", str(b), "solve", str(c)],
+                                 ["solve", str(a), "solve", "0", "clear", "solve", str(b), "solve", str(c)]])
+                line = " ".join(["hist", planner] + pb.toks() + ["k=%d" % rh.choice([1, 2, 3]), "bias=" + B(rh.choice([0.05, 0.0, 1.0])),
+                                                                 "seed=%d" % rh.below(100000), "ops"] + ops)
+                hjobs.append((planner, pb, line, "clear" in ops))
+    with concurrent.futures.ThreadPoolExecutor(max_workers=min(16, os.cpu_count() or 4)) as ex:
+        futs = [ex.submit(run_one, ck, hbin, j[2], NOLEAK) for j in hjobs]
+        for (planner, pb, line, has_clear), fu in zip(hjobs, futs):
+            out, rc, err = fu.result()
+            ck.traces_validated += 1
+            ck.count("history-runs:%s" % ("with-clear" if has_clear else "continue-only"))
+            if rc != 0 or not out or out[0] == "bad-op":
+                ck.case(("hist", line), False)
+                ck.report({"engine": "control", "planner": planner, "clause": "history-crash", "what": "rc=%s %s" % (rc, (err or "")[-400:])},
+                          script=["control", line], observed=out, engine="control")
+                ck.log("history run of %s failed: rc=%s" % (planner, rc))
+                continue
+            nsol = 0
+            for ln in out:
+                chunks = ln.split(" || ")
+                hdr = dict(x.split("=") for x in chunks[0].split()[1:] if "=" in x)
+                sols = []
+                for c in chunks[1:]:
+                    sol = parse_solution(c, pb.sy.nreals)
+                    sol["status"] = "-"          # solve()'s status belongs to the path added last, judged below
+                    fails, stats = oracle(pb, sol)
+                    sols.append((sol, stats))
+                    nsol += 1
+                    ck.count("history:solution-paths-judged")
+                    for f in fails:
+                        key = "reported:history:%s:%s" % (planner, f["clause"])
+                        ck.count(key)
+                        if ck.dist[key] <= 3:
+                            ck.report({"engine": "control", "planner": planner, "clause": "history:" + f["clause"], "system": pb.sy.kind},
+                                      script=["control", line], expected="replayOK after a continued / restarted solve: " + f["clause"],
+                                      observed=[c[:3000], f["detail"]], engine="control")
+                            ck.log("property failure (history): %s %s: %s" % (planner, f["clause"], f["detail"]))
+                if hdr.get("status") == "EXACT_SOLUTION" and not any((not so["approx"]) and st.get("in_goal") for so, st in sols):
+                    key = "reported:history:%s:status" % planner
+                    ck.count(key)
+                    if ck.dist[key] <= 3:
+                        ck.report({"engine": "control", "planner": planner, "clause": "history:status-exact-without-exact-path", "system": pb.sy.kind},
+                                  script=["control", line], expected="EXACT_SOLUTION only with an exact path in the goal",
+                                  observed=[ln[:3000]], engine="control")
+                        ck.log("property failure (history): %s returned EXACT_SOLUTION without an exact path in the goal" % planner)
+            ck.case(("hist", line), nsol > 0)
+
     # ---------------- the remaining PathControl methods (length, copy, operator=, print, printAsMatrix, random, randomValid)
     rm = ck.rng.fork("pmisc")
     mjobs = []
@@ -1217,6 +1284,20 @@ def replay(ck, data):
     rcode = 0
     for line in script[1:]:
         t = line.split()
+        if t[0] == "hist":
+            out, rc, err = run_one(ck, hbin, line, NOLEAK)
+            planner, pb, _, _ = parse_plan_line("plan " + " ".join(t[1:t.index("ops")]) + " seed=0 budget=0") if False else (t[1],) + (parse_plan_line(" ".join(["plan"] + t[1:t.index("ops")] + ["budget=0"]))[1], 0, 0)
+            for ln in out:
+                for c in ln.split(" || ")[1:]:
+                    sol = parse_solution(c, pb.sy.nreals)
+                    sol["status"] = "-"
+                    for f in oracle(pb, sol)[0]:
+                        print("PROPERTY FAILS [history:%s] %s" % (f["clause"], f["detail"]))
+                        rcode = 1
+            print("hist %s -> %d solve lines, rc=%s" % (t[1], len(out), rc))
+            if rc != 0:
+                rcode = 1
+            continue
         if t[0] == "pmisc":
             out, rc, err = run_one(ck, hbin, line, NOLEAK)
             bad = ("harness rc=%s" % rc) if rc != 0 or not out else pmisc_oracle(line, out[0])
@@ -1272,7 +1353,10 @@ MANIFEST = {
             "PathControl::check/interpolate/asGeometric, control::RRT::solve (both intermediate-state modes), control::SST::solve (witness set, "
             "best-representative replacement, solution snapshots), control::EST::solve (grid cells, one PDF element per cell) and "
             "control::KPIECE1::solve (GridB discretization, CloseSamples, splitting of motions at cell boundaries) and control::PDST::solve "
-            "(segments split at BSP cell boundaries, priority queue, exact/closest bookkeeping, findDurationAndAncestor path assembly): the reported (state, control, steps) "
+            "(segments split at BSP cell boundaries, priority queue, exact/closest bookkeeping, findDurationAndAncestor path assembly; its replay theorem "
+            "pdst_solution_replays holds under four explicit hypotheses: hclose [close a b -> a = b] and hrefl [close a a], which model the code's "
+            "float-epsilon state lookup as exact identification (an abstraction listed in the trusted base), hmin [minControlDuration >= 1, enforced by "
+            "setup()] and hrng [uniformInt(1,hi) in [1,hi]]): the reported (state, control, steps) "
             "triples replay exactly with every intermediate step valid, durations are whole step counts in range, the first state is a "
             "valid start and an exact status implies the goal. The models are tied to the code by bit-exact lock-step runs (propagation "
             "core on scripted validity predicates; control RRT, SST, EST, KPIECE1 and PDST re-run on the draws recorded from the real planners, comparing the "
